@@ -108,12 +108,19 @@ func (mq *MessageQueue) AllocateAndBuildMessage(size uint64, buildMessageFn func
 			return
 		}
 	}
-	if mq.buildMessage(size, buildMessageFn) {
+	nonEmpty, added := mq.buildMessage(size, buildMessageFn)
+	if size > added {
+		// give back the part of the reservation that did not become queued block data
+		// (extension data, or everything when the response stream was already closed):
+		// only a builder's block size is released when its message is sent or fails
+		_ = mq.allocator.ReleaseBlockMemory(mq.p, size-added)
+	}
+	if nonEmpty {
 		mq.signalWork()
 	}
 }
 
-func (mq *MessageQueue) buildMessage(size uint64, buildMessageFn func(*Builder)) bool {
+func (mq *MessageQueue) buildMessage(size uint64, buildMessageFn func(*Builder)) (nonEmpty bool, added uint64) {
 	mq.buildersLk.Lock()
 	defer mq.buildersLk.Unlock()
 	if shouldBeginNewResponse(mq.builders, size) {
@@ -125,8 +132,9 @@ func (mq *MessageQueue) buildMessage(size uint64, buildMessageFn func(*Builder))
 		mq.builders = append(mq.builders, NewBuilder(ctx, topic))
 	}
 	builder := mq.builders[len(mq.builders)-1]
+	before := builder.BlockSize()
 	buildMessageFn(builder)
-	return !builder.Empty()
+	return !builder.Empty(), builder.BlockSize() - before
 }
 
 func shouldBeginNewResponse(builders []*Builder, blkSize uint64) bool {
